@@ -149,7 +149,10 @@ def exhaustive_cases(ctx: Ctx, r):
         for ph in (None, "2d", "3d"):
             for mask in itertools.product([0, 1], repeat=len(fs)):
                 present = [f for f, m in zip(fs, mask) if m] + (["photon"] if ph else [])
-                for route in ("dict", "asdf"):
+                # the .asdf route exercises the whole chain (to_dict, backend, from_dict) for every type; the
+                # dictionary route (which isolates pyxel's own key handling) is enumerated on the type with
+                # the most containers
+                for route in (("dict", "asdf") if kind == "mkid" else ("asdf",)):
                     cases.append({"route": route, "exhaustive": True,
                                   "spec": make_spec(r, kind, present, {"photon": ph, "charge_frame": "plain"} if ph else {"charge_frame": "plain"},
                                                     dims=(2, 2), props={})})
@@ -486,10 +489,11 @@ def run(ctx: Ctx):
     if h5.get("h5py"):
         ctx.log("note: h5py is importable here but the HDF5 route is not implemented in this check")
 
-    cases = structured_cases(ctx, r) + random_cases(ctx, r, ctx.budget(120, 400)) + pipeline_cases(ctx, r, ctx.budget(3, 8))
+    cases = structured_cases(ctx, r) + random_cases(ctx, r, ctx.budget(120, 300)) + pipeline_cases(ctx, r, ctx.budget(3, 8))
     if not ctx.quick:
         cases += exhaustive_cases(ctx, ctx.rng("exh"))
-        ctx.cov["exhaustive"] = "all subsets of initialised containers (photon none/2-D/3-D) x 4 types x {dict, asdf}"
+        ctx.cov["exhaustive"] = ("all subsets of initialised containers (photon none/2-D/3-D): 4 types via .asdf files, "
+                                 "MKID also via to_dict/from_dict")
     units, mism, viol = correspondence(ctx, cases)
     account(ctx, units)
     process(ctx, units, mism, viol)
